@@ -498,6 +498,8 @@ func TestC09(t *testing.T) {
 	// successive links of one endpoint (the link goes down and comes back): every one starts counting at 0; and what the
 	// peer sends (its protocol version) has no say in what the node originates
 	c09generations(rep, r, genv)
+	// one Node value living several lives with another identity / version / key in each of them
+	c09lives(rep, r, genv)
 
 	// initialization refusals
 	type initCase struct {
@@ -710,6 +712,78 @@ func c09twins(rep *vh.Report, r *vh.RNG, main *gateEnv) {
 		rep.Count("twin_dialect_node_frames_"+names[i], len(emitted))
 	}
 	rep.Distinct("twin-dialects")
+}
+
+// c09lives: the same Node value is closed, its Out* fields are changed in place, and it is initialised again (an application
+// that reconfigures its link layer): what it originates in each life carries that life's identity, version and signature.
+func c09lives(rep *vh.Report, r *vh.RNG, genv *gateEnv) {
+	var dmsgs []message.Message
+	var low []*msgInfo
+	for _, mi := range genv.sorted() {
+		dmsgs = append(dmsgs, mi.Msg)
+		if mi.Msg.GetID() <= 255 {
+			low = append(low, mi)
+		}
+	}
+	if len(low) == 0 {
+		return
+	}
+	node := &gomavlib.Node{Dialect: &dialect.Dialect{Version: 3, Messages: dmsgs}, HeartbeatDisable: true}
+	lives := []c09conf{{version: 2, sys: 10, comp: 0}, {version: 1, sys: 22, comp: 7}, {version: 2, sys: 33, comp: 9, keyRaw: r.Bytes(32), link: 0}, {version: 2, sys: 44, comp: 0}, {version: 1, sys: 10, comp: 3}}
+	for li, conf := range lives {
+		tr := fake.NewTransport(fmt.Sprintf("life%d", li))
+		node.Endpoints = []gomavlib.EndpointConf{gomavlib.EndpointCustom{ReadWriteCloser: tr}}
+		node.OutVersion, node.OutSystemID, node.OutComponentID = gomavlib.Version(conf.version), conf.sys, conf.comp
+		node.OutKey = nil
+		if conf.keyRaw != nil {
+			node.OutKey = mkKey(conf.keyRaw)
+		}
+		if err := node.Initialize(); err != nil {
+			rep.Violation("api=node what=init:valid", fmt.Sprintf("life %d of a node value (%s) was refused: %v", li+1, conf.String(), err), nil)
+			return
+		}
+		for {
+			if _, ok := (<-node.Events()).(*gomavlib.EventChannelOpen); ok {
+				break
+			}
+		}
+		go func() {
+			for range node.Events() {
+			}
+		}()
+		n := 40
+		for i := 0; i < n; i++ {
+			mi := low[r.Intn(len(low))]
+			val := reflect.New(mi.Type)
+			vh.FillMessage(r, mi.Layout, val, vh.ModeMixed)
+			_ = node.WriteMessageAll(val.Interface().(message.Message))
+			if i%16 == 15 {
+				tr.WaitWrites(i+1, time.Second)
+			}
+		}
+		tr.WaitWrites(n, time.Second)
+		node.Close()
+		var emitted []c09emitted
+		for _, w := range tr.Writes() {
+			emitted = append(emitted, c09emitted{wire: w.Data})
+		}
+		link := -1
+		if conf.keyRaw != nil && len(emitted) > 0 {
+			if f, _, st := ref.ParseAt(emitted[0].wire, 0); st == ref.ParseOK {
+				link = int(f.LinkID)
+			}
+		}
+		rep.Count("node_value_lives", 1)
+		rep.Distinct("lives", li)
+		if len(emitted) < n {
+			rep.Observe(fmt.Sprintf("c09 lives: life %d (%s) emitted %d of %d", li+1, conf.String(), len(emitted), n))
+		}
+		if len(emitted) == 0 {
+			rep.Violation("api=node what=version", fmt.Sprintf("life %d of a node value (%s) originated nothing", li+1, conf.String()), nil)
+			continue
+		}
+		c09checkLink(rep, "node", conf, genv, emitted, link)
+	}
 }
 
 var errC09Session = errors.New("link went down")
